@@ -40,10 +40,31 @@ CHUNK = 8
 PROBES = ["compatible", "compatible_tls13", "compatible_tls12",
           "compatible_legacy", "incompatible", "purity_checked",
           "idempotence_checked", "validate_rejected", "second_connection",
-          "second_resumed"]
+          "second_resumed", "invalid_value_rejected"]
 COMPONENTS_REAL = ["HandshakeSettings.validate, client+server handshakes"]
 COMPONENTS_STUB = ["socket", "os.urandom", "clock"]
 ASSUMPTIONS = ["honest peers, benign transport"]
+
+
+# values outside the documented domains (handshakesettings.py docstrings /
+# error messages); each must make validate() - and therefore every
+# handshake entry point - raise ValueError before any I/O
+INVALID = [
+    ("record_size_limit", 0), ("record_size_limit", 63),
+    ("record_size_limit", 2 ** 14 + 2), ("record_size_limit", -1),
+    ("minKeySize", 511), ("maxKeySize", 16385), ("maxKeySize", 511),
+    ("cipherNames", ["bogus"]), ("macNames", ["bogus"]),
+    ("keyExchangeNames", ["bogus"]), ("eccCurves", ["bogus"]),
+    ("dhGroups", ["bogus"]), ("rsaSigHashes", ["bogus"]),
+    ("ecdsaSigHashes", ["bogus"]), ("rsaSchemes", ["bogus"]),
+    ("minVersion", [3, 5]), ("maxVersion", [2, 9]),
+    ("useExtendedMasterSecret", 2), ("useEncryptThenMAC", "yes"),
+    ("ticket_count", -1), ("ticketLifetime", 0), ("max_early_data", -1),
+    ("psk_modes", ["bogus"]), ("certificate_compression_send", ["bogus"]),
+    ("certificate_compression_receive", ["bogus"]),
+    ("ticketKeys", ["0011223344"]), ("keyShares", ["bogus"]),
+    ("defaultCurve", "bogus"), ("ticketCipher", "bogus"),
+]
 
 
 def plan(tier, base_seed):
@@ -108,6 +129,12 @@ def run(job, streams=None):
         s["ticketKeys"] = ["77" * 32]
     second = ch.draw(3, "opt.second") != 2
     use_cache = ch.draw(2, "opt.cache") == 1
+    invalid = None
+    if ch.draw(10, "opt.invalid") == 1:
+        fld, val = INVALID[ch.draw(len(INVALID), "opt.invalidwhich")]
+        role_ = ["cset", "sset"][ch.draw(2, "opt.invalidrole")]
+        (c if role_ == "cset" else s)[fld] = val
+        invalid = (role_, fld, val)
     skey = ["rsa", "ecdsa"][ch.draw(2, "skey")]
     sc = {"cset": c, "sset": s, "flavour": "cert", "skey": skey}
     if ch.draw(4, "alpn") == 1:
@@ -128,8 +155,14 @@ def run(job, streams=None):
         before = snapshot(hs)
         try:
             out1 = hs.validate()
+            if invalid and invalid[0] == role:
+                v("invalid_accepted", "%s=%r" % (invalid[1], invalid[2]),
+                  "validate() accepted %s = %r, a value outside the "
+                  "documented domain" % (invalid[1], invalid[2]))
         except ValueError:
             probes["validate_rejected"] = 1
+            if invalid and invalid[0] == role:
+                probes["invalid_value_rejected"] = 1
             out1 = None
         after = snapshot(hs)
         for k, a, b in diff_snap(before, after):
